@@ -31,9 +31,15 @@ func init() {
 }
 
 type sop struct {
-	kind string // ains aset arem mset mrem commit
+	kind string // ains aset arem mset mrem commit achild mchild
 	i    uint64
 	k, v hx.TV
+	// achild / mchild: a small child container (array when !cm, map when cm) of type cty holding cn
+	// tiny values is inserted at i / set under k.  Types come from a small set so that sibling
+	// inlined children repeat type infos (shared extra-data section, type-info references).
+	cty uint64
+	cn  int
+	cm  bool
 }
 
 func genScript(seed int64, n int, T uint32) []sop {
@@ -58,6 +64,22 @@ func genScript(seed int64, n int, T uint32) []sop {
 		p := uint64(1 + rng.Intn(120))
 		return hx.TV{Size: 9, Pay: p}
 	}
+	// a block of sibling children whose type infos repeat (two or more distinct types, each used at
+	// least twice, in shuffled order) inside ONE slab, committed at once: the shared extra-data
+	// section and its type-info references must come out the same on every run (C04)
+	if rng.Intn(4) != 0 {
+		tys := []uint64{50, 50, 51, 51, 52, 52, 53}
+		rng.Shuffle(len(tys), func(i, j int) { tys[i], tys[j] = tys[j], tys[i] })
+		for _, t := range tys[:4+rng.Intn(4)] {
+			ops = append(ops, sop{kind: "achild", i: uint64(rng.Intn(alen + 1)), cty: t, cn: rng.Intn(2), cm: rng.Intn(3) == 0})
+			alen++
+		}
+		for j, t := range tys[:4] {
+			k := hx.TV{Size: 9, Pay: uint64(200 + j)}
+			ops = append(ops, sop{kind: "mchild", k: k, cty: t, cn: rng.Intn(2), cm: rng.Intn(3) == 0})
+		}
+		ops = append(ops, sop{kind: "commit"})
+	}
 	for len(ops) < n {
 		r := rng.Intn(100)
 		switch {
@@ -79,8 +101,15 @@ func genScript(seed int64, n int, T uint32) []sop {
 				delete(present, k.Pay)
 				ops = append(ops, sop{kind: "mrem", k: k})
 			}
-		case r < 97:
+		case r < 95:
 			ops = append(ops, sop{kind: "commit"})
+		case r < 98:
+			ops = append(ops, sop{kind: "achild", i: uint64(rng.Intn(alen + 1)), cty: uint64(50 + rng.Intn(4)), cn: rng.Intn(3), cm: rng.Intn(2) == 0})
+			alen++
+		default:
+			k := key()
+			present[k.Pay] = true
+			ops = append(ops, sop{kind: "mchild", k: k, cty: uint64(50 + rng.Intn(4)), cn: rng.Intn(3), cm: rng.Intn(2) == 0})
 		}
 	}
 	ops = append(ops, sop{kind: "commit"})
@@ -272,14 +301,56 @@ func runScript(ops []sop, cfg runCfg) (out runOut) {
 		case "commit":
 			err := commit(true)
 			o = obsErr(err)
+		case "achild", "mchild":
+			var child atree.Value
+			var err error
+			caddr := hx.MkAddr(1)                         // a child lives at its parent's address ...
+			chip := atree.HashInputProvider(hx.HashInput) // ... and is verified with its parent's hash input
+			if op.kind == "mchild" {
+				caddr = hx.MkAddr(2)
+				chip = hip
+			}
+			if op.cm {
+				var m *atree.OrderedMap
+				m, err = atree.NewMap(ps, caddr, atree.NewDefaultDigesterBuilder(), hx.TI(op.cty))
+				for j := 0; err == nil && j < op.cn; j++ {
+					_, err = m.Set(hx.CompareKey, chip, hx.TV{Size: 3, Pay: uint64(j + 1)}, hx.TV{Size: 3, Pay: uint64(j + 7)})
+				}
+				child = m
+			} else {
+				var a *atree.Array
+				a, err = atree.NewArray(ps, caddr, hx.TI(op.cty))
+				for j := 0; err == nil && j < op.cn; j++ {
+					err = a.Append(hx.TV{Size: 3, Pay: uint64(j + 1)})
+				}
+				child = a
+			}
+			if err == nil {
+				if op.kind == "achild" {
+					err = arr.Insert(op.i, child)
+					o = obsErr(err)
+				} else {
+					var old atree.Storable
+					old, err = mp.Set(hx.CompareKey, hip, op.k, child)
+					o = obsErr(err) + " " + render(old)
+					if err == nil && old != nil {
+						dispose(old)
+					}
+				}
+			} else {
+				o = obsErr(err)
+			}
 		}
 		out.obs = append(out.obs, o)
 	}
 	// final logical content, read through the containers
 	var sb strings.Builder
-	_ = arr.IterateReadOnly(func(v atree.Value) (bool, error) { fmt.Fprintf(&sb, "%v,", v); return true, nil })
+	_ = arr.IterateReadOnly(func(v atree.Value) (bool, error) { fmt.Fprintf(&sb, "%s,", scriptVal(v)); return true, nil })
 	sb.WriteString("|")
-	_ = mp.IterateReadOnly(func(k, v atree.Value) (bool, error) { fmt.Fprintf(&sb, "%v=%v,", k, v); return true, nil })
+	_ = mp.IterateReadOnly(func(k, v atree.Value) (bool, error) {
+		fmt.Fprintf(&sb, "%s=%s,", scriptVal(k), scriptVal(v))
+		return true, nil
+	})
 	out.content = sb.String()
 	if err := atree.VerifyArray(arr, hx.MkAddr(1), hx.TI(1), func(a, b atree.TypeInfo) bool { return a == b }, hx.HashInput, true); err != nil {
 		out.err = "VerifyArray: " + err.Error()
@@ -292,6 +363,26 @@ func runScript(ops []sop, cfg runCfg) (out runOut) {
 	}
 	out.regs = regsOf(ledger)
 	return
+}
+
+// scriptVal renders a value read back from a script container without addresses.
+func scriptVal(v atree.Value) string {
+	switch x := v.(type) {
+	case *atree.Array:
+		var sb strings.Builder
+		fmt.Fprintf(&sb, "A%v[", x.Type())
+		_ = x.IterateReadOnly(func(e atree.Value) (bool, error) { sb.WriteString(scriptVal(e) + ","); return true, nil })
+		return sb.String() + "]"
+	case *atree.OrderedMap:
+		var sb strings.Builder
+		fmt.Fprintf(&sb, "M%v{", x.Type())
+		_ = x.IterateReadOnly(func(k, e atree.Value) (bool, error) {
+			sb.WriteString(scriptVal(k) + "=" + scriptVal(e) + ",")
+			return true, nil
+		})
+		return sb.String() + "}"
+	}
+	return fmt.Sprintf("%v", v)
 }
 
 func diffRegs(a, b map[string]string) string {
